@@ -59,6 +59,7 @@ def all_ops(k, rich=True):
             ops.append(["set_children", n, ["other"]])
             ops.append(["set_children", n, [None]])
             ops.append(["set_children", n, [nodes[-1], "other"]])
+            ops.append(["set_children", n, [nodes[-1], "otherp"]])
             ops.append(["set_children", n, ["other", nodes[0], nodes[0]]])
     for p in [None] + nodes + ["other", "other0"]:
         ops.append(["construct", p, None])
@@ -72,10 +73,10 @@ def uses_non_node(op):
     if op[0] == "set_parent":
         return op[2] in ("other", "other0")
     if op[0] == "set_children":
-        return op[2] != "notiterable" and any(v is None or v == "other" for v in op[2])
+        return op[2] != "notiterable" and any(v is None or v in ("other", "otherp") for v in op[2])
     if op[0] == "construct":
         c = op[2]
-        return op[1] in ("other", "other0") or (isinstance(c, list) and any(v is None or v == "other" for v in c))
+        return op[1] in ("other", "other0") or (isinstance(c, list) and any(v is None or v in ("other", "otherp") for v in c))
     return False
 
 
@@ -105,7 +106,7 @@ def heap_lit(heap):
 def value_lit(v):
     if v is None:
         return "VNone"
-    if v in ("other", "other0"):
+    if v in ("other", "other0", "otherp"):
         return "VOther"
     return "(VNode %s)" % L.nat(v)
 
